@@ -148,7 +148,7 @@ func (fr *frame) execInstr(ins ssa.Instruction, st *State, reach *string) bool {
 			}
 		}
 		ex.store(st, p, v)
-		if v.F != nil {
+		if v.F != nil && !ex.discover {
 			ex.cellFuncs[cellKey(p)] = v.F
 		}
 	case *ssa.TypeAssert:
